@@ -5,17 +5,20 @@ EXTENDS CacheConc, Json
 
 CONSTANTS OpsPerTask,   \* exact number of operations per task
           InitKinds,    \* subset of {"none","live","exp"}: initial state of each key
-          OpNames       \* subset of {"get","contains","put","put_exp","remove","clear"}
+          OpNames,      \* subset of {"get","contains","put","put_exp","remove","clear","sweep","size"}
+          SweepTasks    \* the tasks that play the background cleanup task: they only sweep, nobody else does
 VARIABLE init           \* key -> initial kind (constant along a behaviour)
 
-Ops == {[op |-> o, k |-> k] : o \in OpNames \ {"clear"}, k \in Keys} \cup
-       (IF "clear" \in OpNames THEN {[op |-> "clear", k |-> 0]} ELSE {})
+Keyless == {"clear", "sweep", "size"}
+Ops == {[op |-> o, k |-> k] : o \in OpNames \ Keyless, k \in Keys} \cup
+       {[op |-> o, k |-> 0] : o \in OpNames \cap Keyless}
 
 InitEntry(k, kind) == IF kind = "none" THEN None ELSE [id |-> k, size |-> SizeOf(k), exp |-> kind = "exp"]
 
 MCInit ==
   /\ init \in [Keys -> InitKinds]
   /\ prog \in [Tasks -> [1..OpsPerTask -> Ops]]
+  /\ \A t \in Tasks, i \in 1..OpsPerTask : (prog[t][i].op = "sweep") <=> (t \in SweepTasks)
   /\ ip = [t \in Tasks |-> 1] /\ pc = [t \in Tasks |-> "start"] /\ loc = [t \in Tasks |-> None]
   /\ map = [k \in Keys |-> InitEntry(k, init[k])]
   /\ cnt = Cardinality({k \in Keys : init[k] # "none"})
